@@ -2,6 +2,7 @@ package checks
 
 import (
 	"crypto/sha256"
+	"errors"
 	"fmt"
 	"hash"
 	"io/fs"
@@ -9,6 +10,7 @@ import (
 	"math/rand/v2"
 	"reflect"
 	"strings"
+	"syscall"
 	"time"
 
 	"github.com/avfs/avfs"
@@ -243,6 +245,7 @@ func c07Invoke(f reflect.Value, args []reflect.Value) (verdict, detail string) {
 			}
 		}
 	}()
+	fsx.BeginCall()
 	out := f.Call(args)
 	// results that are handles are closed right away (their own methods are swept separately)
 	for _, o := range out {
@@ -433,7 +436,7 @@ func init() {
 		Shards: shards(14, 16),
 		Meta: func(tier string) rt.Meta {
 			return rt.Meta{Level: "exploration", MinEvals: 20000, MinDistinct: 200,
-				Rule:        "(a) reflection-driven adversarial sweep: the method sets of MemFS, OrefaFS, RoFS and BasePathFS over both, FailFS, a Sub view, MemIdm and of their File handles (regular read/write/append, directory, closed, nil typed handle returned together with an error) are walked with reflect and every parameter is filled from a hostile domain chosen by its Go type (paths: empty, ., .., /, //, unclean, NUL and backslash, 300-byte names, 400-byte paths, glob metacharacters; integers: MinInt64, -1, 0, boundaries up to 1 MiB; open flags; file modes incl. type bits; buffers; times; callbacks), after random preceding calls; plus the exported helpers (Glob, WalkDir, CopyFile, HashFile, PathIterator, FromUnixPath, To/FromBasePath, RndTree...). Each call runs under recover() and under the sequential lock hook, which turns a lock that can never be acquired into a logical 'never returns' verdict and counts lock sites for runaway detection. (a') permission-failure scenarios: a tree built by a non-administrator on MemFS, non-empty directories then protected by the administrator, RemoveAll/MkdirAll/Rename/Remove by the owner failing half-way; the call and Stat/ReadDir/Lstat of every directory afterwards must return (a lock kept on an error path is a logical self-deadlock). (b) deadlock/panic verdicts of the deterministic scheduler over the C06 programs plus dedicated lock-order programs (opposite cross-directory renames, rename against mkdir/remove/open in the involved directories, link against remove, handle operations against path operations on the same node). Signature = type.method | verdict; all non-trivial.",
+				Rule:        "(a) reflection-driven adversarial sweep: the method sets of MemFS, OrefaFS, RoFS and BasePathFS over both, FailFS, a Sub view, MemIdm and of their File handles (regular read/write/append, directory, closed, nil typed handle returned together with an error) are walked with reflect and every parameter is filled from a hostile domain chosen by its Go type (paths: empty, ., .., /, //, unclean, NUL and backslash, 300-byte names, 400-byte paths, glob metacharacters; integers: MinInt64, -1, 0, boundaries up to 1 MiB; open flags; file modes incl. type bits; buffers; times; callbacks), after random preceding calls; plus the exported helpers (Glob, WalkDir, CopyFile, HashFile, PathIterator, FromUnixPath, To/FromBasePath, RndTree...). Each call runs under recover() and under the sequential lock hook, which turns a lock that can never be acquired into a logical 'never returns' verdict and counts lock sites for runaway detection. (a') permission-failure scenarios: a tree built by a non-administrator on MemFS, non-empty directories then protected by the administrator, RemoveAll/MkdirAll/Rename/Remove by the owner failing half-way; the call and Stat/ReadDir/Lstat of every directory afterwards must return (a lock kept on an error path is a logical self-deadlock). (a2) every FailFS function id failing in turn x composite helpers (ReadFile, WriteFile, CopyFile, HashFile, ReadDir, WalkDir, Glob, MkdirAll, temp helpers, RemoveAll) on files of 0..70000 bytes around the 512-byte and 32 KiB buffers: every call returns. (b) deadlock/panic verdicts of the deterministic scheduler over the C06 programs plus dedicated lock-order programs (opposite cross-directory renames, rename against mkdir/remove/open in the involved directories, link against remove, handle operations against path operations on the same node). Signature = type.method | verdict; all non-trivial.",
 				Assumptions: []string{"sizes and offsets beyond 1 MiB (allocation bombs on an in-memory file system) and a nil UserReader are outside the domain", "pure-CPU non-termination without lock acquisitions would only be caught by the worker watchdog (inconclusive)"}}
 		},
 		CrashIsViolation: true,
@@ -502,6 +505,11 @@ func init() {
 				}
 			}
 
+			// ---- (a") composite helpers under an injected fault, on files around the buffer sizes: every call returns
+			if c.Shard == 2%c.NShards {
+				c07Faults(c)
+			}
+
 			// ---- (b) schedules: every worker returns
 			sched.Install()
 			st := &c06Stats{inter: map[uint64]bool{}}
@@ -530,6 +538,8 @@ func init() {
 					{{{K: "ReadDir", P: "/w/d"}}, {{K: "Link", P: "/w/d/a", Q: "/w/d/y"}}, {{K: "ReadDir", P: "/w"}}},
 					{{{K: "ReadDir", P: "/w"}}, {{K: "Link", P: "/w/b", Q: "/w/y"}}},
 					{{{K: "WalkDir", P: "/w"}}, {{K: "Rename", P: "/w/d", Q: "/w/a/d"}}, {{K: "RemoveAll", P: "/w/a"}}},
+					// a file growing between the size probe and the reads of ReadFile
+					{{{K: "ReadFile", P: "/w/big"}}, {{K: "OpenWriteClose", P: "/w/big", Flag: 0x401, Data: "x"}}},
 					// a rename that inverts the ancestor relation of the two directories a Link/Rename is about to lock
 					{{{K: "Link", P: "/w/d/a", Q: "/w/a/y"}}, {{K: "Rename", P: "/w/a", Q: "/w/d/z"}}, {{K: "ReadDir", P: "/w/d"}}},
 					{{{K: "Rename", P: "/w/d/a", Q: "/w/a/y"}}, {{K: "Rename", P: "/w/a", Q: "/w/d/z"}}, {{K: "ReadDir", P: "/w/d"}}},
@@ -563,6 +573,65 @@ func init() {
 			c.Rep.Count("distinct_interleavings", int64(len(st.inter)))
 		},
 	})
+}
+
+// c07Faults fails every consultation of one FailFS function id at a time (all ids) and runs the helpers that are made of
+// several primitives on files whose sizes sit around the internal buffer sizes (512 bytes, 32 KiB): whatever they return,
+// they must return (a helper that keeps reading after a failed size probe is a runaway under the sequential hook).
+func c07Faults(c *rt.Ctx) {
+	injected := errors.New("c07-injected")
+	sizes := []int{0, 1, 511, 512, 513, 600, 5000, 32768, 32769, 70000}
+	for _, fsType := range []string{"MemFS", "OrefaFS"} {
+		for fn := avfs.FnVFS(1); !strings.HasPrefix(fn.String(), "FnVFS("); fn++ {
+			base := newBase(fsType)
+			_ = base.MkdirAll("/w/d", 0o755)
+			for _, n := range sizes {
+				_ = base.WriteFile(fmt.Sprintf("/w/f%d", n), make([]byte, n), 0o644)
+			}
+			ff := failfs.New(base)
+			fn := fn
+			_ = ff.SetFailFunc(func(_ avfs.VFSBase, f avfs.FnVFS, _ *failfs.FailParam) error {
+				if f == fn {
+					return injected
+				}
+				return nil
+			})
+			env := fsx.NewEnv(ff)
+			var ops []fsx.Op
+			for _, n := range sizes {
+				p := fmt.Sprintf("/w/f%d", n)
+				ops = append(ops, fsx.Op{K: "ReadFile", P: p}, fsx.Op{K: "Stat", P: p}, fsx.Op{K: "OpenWriteClose", P: p, Flag: syscall.O_WRONLY | syscall.O_APPEND, Data: "x"},
+					fsx.Op{K: "WriteFile", P: p + ".new", Data: "y", Perm: 0o644}, fsx.Op{K: "Truncate", P: p, N: int64(n / 2)})
+			}
+			ops = append(ops, fsx.Op{K: "ReadDir", P: "/w"}, fsx.Op{K: "WalkDir", P: "/w"}, fsx.Op{K: "Glob", P: "/w/*"}, fsx.Op{K: "MkdirAll", P: "/w/d/e/f", Perm: 0o755},
+				fsx.Op{K: "CreateTemp", P: "/w", Q: "t*", H: 7}, fsx.Op{K: "MkdirTemp", P: "/w", Q: "t*"}, fsx.Op{K: "RemoveAll", P: "/w/d"})
+			for _, o := range ops {
+				res := env.Exec(o)
+				c.Rep.Case(fmt.Sprintf("FailFS(%s)|fail=%s|%s|%s", fsType, fn, o.K, res.Err), true)
+				if fatalRes(res) {
+					c.Disagree(fmt.Sprintf("FailFS(%s)|fail=%s|%s|%s", fsType, fn, o.K, res.Err), fmt.Sprintf("FailFS over %s with every %s failing: %s does not return normally: %s", fsType, fn, o, res.Raw), map[string]any{"fs": fsType, "failing": fn.String(), "call": o.String()})
+					break
+				}
+			}
+			for _, n := range sizes {
+				p := fmt.Sprintf("/w/f%d", n)
+				for _, hf := range []string{"CopyFile", "HashFile"} {
+					verdict, detail := c07Invoke(reflect.ValueOf(func() {
+						if hf == "CopyFile" {
+							_ = avfs.CopyFile(ff, ff, p+".copy", p)
+						} else {
+							_, _ = avfs.HashFile(ff, p, sha256.New())
+						}
+					}), nil)
+					c.Rep.Case(fmt.Sprintf("FailFS(%s)|fail=%s|%s|%s", fsType, fn, hf, verdict), true)
+					if verdict != "returns" {
+						c.Disagree(fmt.Sprintf("FailFS(%s)|fail=%s|%s|%s", fsType, fn, hf, verdict), fmt.Sprintf("FailFS over %s with every %s failing: %s(%s) %s: %s", fsType, fn, hf, p, verdict, detail), map[string]any{"fs": fsType, "failing": fn.String(), "call": hf + " " + p})
+					}
+				}
+			}
+			env.CloseAll()
+		}
+	}
 }
 
 // c07OnlyReturns makes the C06 judge report only deadlocks, runaways and panics (the C07 part of the schedules).
